@@ -4,8 +4,8 @@
 
    What is NOT proved (see the comments marked NOT PROVED and design_notes/C06.md):
      - termination of the flattening loop on acyclic import graphs (flatten_terminates);
-     - that recordVariableEquivalences / generateEquivalenceMap record EVERY equivalence of the imported subtree
-       (the theorems about rebasing and applying start from the recorded map);
+     - that Component::clone yields a structurally identical tree (hypothesis "a variable is located at the same relative
+       stack" of the apply theorems);
      - preservation of the meaning of units that reference other non-standard units: the claim is FALSE for the code
        (C06_units_meaning_refuted) and no sufficient condition beyond first-level units was proved. *)
 From Coq Require Import List String QArith Bool Arith.
@@ -120,9 +120,32 @@ Theorem C06_apply_generate_id_repaired :
 Proof. exact FlattenProofs.flatten_ids_repaired. Qed.
 Print Assumptions C06_apply_generate_id_repaired.
 
-(* NOT PROVED: forall imported components, record_comp lists every equivalence between two variables of the component's
-   encapsulation tree with the index stacks at which var_located_at finds them (the traversal lemma; C11 proved its
-   counterpart for Model::clone over CloneDefs.v, C11_model_clone_equivalences_internal). *)
+(* recordVariableEquivalences + generateEquivalenceMap: the recorded map holds exactly, for every variable of the
+   component's encapsulation tree (at its index stack), the index stacks at which indexStackOf finds its equivalent
+   variables in the same model *)
+Theorem C06_record_comp_spec : forall m c stack acc k t,
+  em_has (record_comp m stack c acc) k t <->
+  em_has acc k t \/ exists v, In (k, v) (comp_vars_at stack c) /\ equiv_at m v t.
+Proof. exact FlattenProofs.record_comp_spec. Qed.
+Print Assumptions C06_record_comp_spec.
+
+(* apply_generate, end to end (record, rebase, apply): an equivalence of the library model between two variables of the
+   imported component's encapsulation tree is an equivalence between the variables at the same relative stacks below the
+   destination (the copy is structurally identical: it has variables there) *)
+Theorem C06_apply_generate_recreates : forall (L : model) (icomp : comp) (origin dest : path) cs eqs eqs',
+  dest <> [] ->
+  apply_map cs (rebase_map (record_comp L origin icomp []) origin dest) eqs = FOk eqs' ->
+  forall rk rt i v v1 v2,
+    In (origin ++ rk, v) (comp_vars_at origin icomp) ->
+    equiv_at L v (origin ++ rt ++ [i]) ->
+    var_located_at cs (dest ++ rk) = LVar v1 -> var_located_at cs (dest ++ rt ++ [i]) = LVar v2 -> v_oid v1 <> v_oid v2 ->
+    has_pair eqs' (v_oid v1) (v_oid v2).
+Proof. exact FlattenProofs.apply_generate_recreates. Qed.
+Print Assumptions C06_apply_generate_recreates.
+
+(* NOT PROVED: that the copy made by Component::clone has, at every relative stack, the clone of the variable the imported
+   component has there (it is what clone_comp computes; C11 proved the counterpart for CloneDefs.v), and that indexStackOf
+   returns the stack at which a variable sits when identity tags are unique. *)
 
 (* ------------------------------------------------------------------------------------------------ declash_unique *)
 
@@ -150,8 +173,18 @@ Theorem C06_declash_unique_refuted :
 Proof. exact FlattenProofs.declash_unique_refuted. Qed.
 Print Assumptions C06_declash_unique_refuted.
 
-(* NOT PROVED: the tree-level corollary "the component names of the flat model are pairwise distinct" (needs the effect
-   of rename_first_in on the pre-order list of names); the statement above is about the names the loop hands out. *)
+(* at the level of the trees: if the names of the importing model are pairwise distinct, the imported hierarchy has pairwise
+   distinct names and the placeholder's children are components of the importing model, then after the loop all component
+   names of the two forests are pairwise distinct, no component of the imported hierarchy carries a name of the importing
+   model, and a child of the placeholder carries one only if it kept its own *)
+Theorem C06_declash_tree_unique : forall fx N ck pk, fx_clash fx = true ->
+  NoDup (comps_names ck) -> NoDup (comps_names pk) -> incl (comps_names pk) N ->
+  exists ck' pk' done, declash fx N ck pk = FOk (ck', pk', done) /\
+    NoDup (comps_names ck' ++ comps_names pk') /\
+    (forall x, In x (comps_names ck') -> ~ In x N) /\
+    (forall x, In x (comps_names pk') -> In x N -> In x (comps_names pk)).
+Proof. exact FlattenProofs.declash_tree_unique. Qed.
+Print Assumptions C06_declash_tree_unique.
 
 (* ------------------------------------------------------------------------------------------------ units *)
 
